@@ -138,6 +138,9 @@ func (g *gen) simple() Val {
 	switch k {
 	case "str", "bytes":
 		v.S = Str(g.payload())
+		if k == "bytes" {
+			v.S = capBytes(v.S)
+		}
 	case "bool":
 		v.I = int64(g.r.Intn(2))
 	case "rune":
@@ -151,6 +154,17 @@ func (g *gen) simple() Val {
 		v.I = int64(g.r.Intn(2000) - 500)
 	}
 	return v
+}
+
+// capBytes bounds a byte-slice operand: a []byte under a bad verb is
+// printed element by element, and when the verb is itself a marker rune
+// every element makes the escape routine copy the whole buffer - minutes
+// for the 70 KiB payloads that strings may have.
+func capBytes(s Str) Str {
+	if len(s) > 4096 {
+		return s[:4096]
+	}
+	return s
 }
 
 // simple2: a simple value that is not nil.
@@ -177,6 +191,9 @@ func (g *gen) val(depth int, top bool) Val {
 			v := Val{K: k, I: int64(g.r.Intn(300))}
 			if k == "sstr" || k == "sbytes" {
 				v.S = Str(g.payload())
+				if k == "sbytes" {
+					v.S = capBytes(v.S)
+				}
 			}
 			return v
 		}
@@ -195,13 +212,16 @@ func (g *gen) val(depth int, top bool) Val {
 		v := Val{K: k, I: int64(g.r.Intn(300))}
 		if k == "sstr" || k == "sbytes" {
 			v.S = Str(g.payload())
+			if k == "sbytes" {
+				v.S = capBytes(v.S)
+			}
 		}
 		return v
 	case x < 52:
 		if g.chance(0.5) {
 			return Val{K: "rs", S: Str(g.redactableLit())}
 		}
-		return Val{K: "rb", S: Str(g.redactableLit())}
+		return Val{K: "rb", S: capBytes(Str(g.redactableLit()))}
 	case x < 60 && depth < g.maxDepth+1:
 		k := "safe"
 		if g.chance(0.5) {
@@ -267,7 +287,7 @@ func (g *gen) val(depth int, top bool) Val {
 		case 3:
 			// a reflect.Value holding a value the library treats specially
 			k := g.pick(safeKinds)
-			return Val{K: "rv", V: []Val{{K: k, I: int64(g.r.Intn(300)), S: Str(g.payload())}}}
+			return Val{K: "rv", V: []Val{{K: k, I: int64(g.r.Intn(300)), S: capBytes(Str(g.payload()))}}}
 		case 4:
 			return Val{K: "rv", V: []Val{{K: g.pick([]string{"safe", "unsafe"}), V: []Val{g.simple()}}}}
 		case 5:
